@@ -154,6 +154,8 @@ def run(ctx):
     ctx.oracle_cases('cells', tot.get('cells', 0))
     ctx.oracle_cases('skip-tables', tot.get('skip_table_comparisons', 0))
     ctx.oracle_cases('addressing', tot.get('addr_rows', 0) + tot.get('reverse_keys', 0))
+    ctx.oracle_cases('navigation', tot.get('routes', 0), table_comparisons=tot.get('route_table_comparisons', 0),
+                     kinds={k[6:]: v for k, v in tot.items() if k.startswith('route_') and k != 'route_table_comparisons'})
     ctx.extra['input_distribution'] = {k: v for k, v in sorted(tot.items())}
     ctx.hyp_met['inferred_layout_is_true_layout'] = {'layout_lines_of_shipped_tables': tot.get('layout_lines', 0),
                                                      'side_condition_met': tot.get('layout_sidecond_met', 0)}
